@@ -6,7 +6,7 @@
 # Nothing in /repo or in /verif's evidence is touched. Copy and worktree are removed afterwards.
 set -u
 V="$(cd "$(dirname "$0")/.." && pwd)"
-id=$1; tier=${2:-quick}; p=${id%%-*}
+id=$1; tier=${2:-quick}; p=${3:-${id%%-*}}   # optional 3rd argument: run ANOTHER property's check against this change (result printed, meta.json untouched)
 c=/tmp/cv-$id; w=/tmp/rw-$id
 rm -rf "$c"; mkdir -p "$c"
 rsync -a --exclude .git --exclude replays --exclude seeded "$V/" "$c/"
@@ -15,6 +15,7 @@ git -C /repo worktree add --detach "$w" HEAD >/dev/null 2>&1 || { echo "cannot c
 ( cd "$w" && git apply --3way "$V/seeded/$id/patch.diff" && git reset -q ) || { echo "$id: patch does not apply"; git -C /repo worktree remove --force "$w"; rm -rf "$c"; exit 2; }
 out=$(cd "$c" && PSV_REPO="$w" python3 bin/check.py "$p" --tier "$tier" 2>&1); rc=$?
 printf '%s' "$out" > "$c/out.txt"
+if [ -n "${3:-}" ]; then echo "$id under the $p check: rc=$rc"; grep -E "VIOLATION|^  ->|^\[" "$c/out.txt" | tail -5 | cut -c1-400; git -C /repo worktree remove --force "$w"; rm -rf "$c"; exit 0; fi
 python3 - "$V/seeded/$id/meta.json" "$p" "$rc" "$tier" "$c/out.txt" <<'E'
 import json, sys, time
 mf, prop, rc, tier, outf = sys.argv[1:6]
